@@ -20,6 +20,7 @@ package s2
 //@ spec func vcCollinear(a0, a1, b0, b1 Point) bool = r3.PreciseVectorFromVector(a0.Vector).Cross(r3.PreciseVectorFromVector(a1.Vector)).Cross(r3.PreciseVectorFromVector(b0.Vector).Cross(r3.PreciseVectorFromVector(b1.Vector))).Vector() == (r3.Vector{})
 
 //@ lemma intersectionExactSwapCollinear(a0 Point, a1 Point, b0 Point, b1 Point)
+//@   inlinecalls
 //@   fpcmp
 //@   thorough
 //@   timeout 600
@@ -47,9 +48,39 @@ package s2
 
 // whichever way the two edges are passed, the stable path evaluates the numerical core on the same tuple
 //@ lemma intersectionStableSwap(a0 Point, a1 Point, b0 Point, b1 Point)
+//@   inlinecalls
 //@   fpcmp
 //@   requires vcNoNaNPt(a0) && vcNoNaNPt(a1) && vcNoNaNPt(b0) && vcNoNaNPt(b1)
 //@   requires !vcIsNaN(a1.Sub(a0.Vector).Norm2()) && !vcIsNaN(b1.Sub(b0.Vector).Norm2())
 //@   requires a1.Sub(a0.Vector).Norm2() != b1.Sub(b0.Vector).Norm2() || compareEdges(a0, a1, b0, b1) || compareEdges(b0, b1, a0, a1)
 //@   ensures [same-point] vcSame(vcFirst(intersectionStable(a0, a1, b0, b1)), vcFirst(intersectionStable(b0, b1, a0, a1)))
 //@   ensures [same-ok] vcSecond(intersectionStable(a0, a1, b0, b1)) == vcSecond(intersectionStable(b0, b1, a0, a1))
+
+// ---------------------------------------------------------------- the hemisphere correction
+
+// the vertex sum that decides the hemisphere
+//@ spec func vcVertexSum(a0, a1, b0, b1 Point) r3.Vector = (a0.Add(a1.Vector)).Add(b0.Add(b1.Vector))
+
+// ... is the same vector however the two edges are ordered or directed (float addition is commutative; flag fcomm)
+//@ lemma vertexSumSymmetric(a0 Point, a1 Point, b0 Point, b1 Point)
+//@   fcomm
+//@   ensures [swap] vcSame(vcVertexSum(a0, a1, b0, b1), vcVertexSum(b0, b1, a0, a1))
+//@   ensures [reverse-a] vcSame(vcVertexSum(a0, a1, b0, b1), vcVertexSum(a1, a0, b0, b1))
+//@   ensures [reverse-b] vcSame(vcVertexSum(a0, a1, b0, b1), vcVertexSum(a0, a1, b1, b0))
+
+//@ func intersectionStable(a0, a1, b0, b1 Point) (Point, bool)
+//@   deterministic
+//@   opaque
+//@   noframe
+
+//@ func intersectionExact(a0, a1, b0, b1 Point) Point
+//@   deterministic
+//@   opaque
+//@   noframe
+
+// Intersection returns the computed point or its antipode, whichever is not opposite to that symmetric sum
+//@ func Intersection(a0, a1, b0, b1 Point) Point
+//@   ensures [hemisphere-by-symmetric-sum] vcSame(result, vcPick(vcFirst(intersectionStable(a0, a1, b0, b1)), vcSecond(intersectionStable(a0, a1, b0, b1)), intersectionExact(a0, a1, b0, b1), vcVertexSum(a0, a1, b0, b1)))
+
+//@ spec func vcPick(st Point, ok bool, ex Point, sum r3.Vector) Point = vcFlip(vcIf(ok, st, ex), sum)
+//@ spec func vcFlip(pt Point, sum r3.Vector) Point = vcIf(pt.Dot(sum) < 0, Point{pt.Mul(-1)}, pt)
